@@ -23,7 +23,9 @@ FIXED_WIDTH = {"YYYY": 4, "GGGG": 4, "0Y": 2, "0G": 2, "0M": 2, "0D": 2, "00J": 
 RANGES = {"quarter": (1, 4), "month": (1, 12), "dom": (1, 31), "doy": (1, 366),
           "week_w": (0, 53), "week_u": (0, 53), "week_v": (1, 53)}
 TAGS = ["final", "dev", "alpha", "beta", "rc", "post"]
-PYTAG = {"final": "", "dev": "dev", "alpha": "a", "beta": "b", "rc": "rc", "post": "post"}
+# 'preview' is an undocumented spelling that the TAG part accepts (PEP 440: an alias of rc); a current version may carry it
+TAG_READ = TAGS + ["preview"]
+PYTAG = {"final": "", "dev": "dev", "alpha": "a", "beta": "b", "rc": "rc", "post": "post", "preview": "rc"}
 ZERO = {"MAJOR": 0, "MINOR": 0, "PATCH": 0, "NUM": 0, "INC0": 0, "TAG": "final", "PYTAG": "final"}
 NUMERIC_FREE = ("BUILD", "MAJOR", "MINOR", "PATCH", "NUM", "INC0")  # any digit string, leading zeros allowed
 
@@ -147,7 +149,7 @@ def _part_candidates(part, text, i):
     """yield (end, value) for every way `part` can be read at text[i:]"""
     f = PART_FIELD[part]
     if part in ("TAG", "PYTAG"):
-        names = TAGS if part == "TAG" else [t for t in TAGS if t != "final"]
+        names = TAG_READ if part == "TAG" else [t for t in TAGS if t != "final"]
         for t in names:
             s = t if part == "TAG" else PYTAG[t]
             if text.startswith(s, i):
